@@ -306,17 +306,23 @@ def _assigned_expr(f, name: str):
 def lookup_order(ctx, rep, clause):
     program = ctx.program
 
-    def order_of(fq, names):
+    def order_of(fq, names, depth=0):
         f = program.func(fq)
         seq = []
         for n in ast.walk(f.node):
             if isinstance(n, ast.Call) and isinstance(n.func, ast.Attribute) and n.func.attr in names:
-                seq.append((n.lineno, n.col_offset, n.func.attr))
-        seq.sort()
+                seq.append((n.lineno, n.col_offset, [n.func.attr]))
+            elif isinstance(n, ast.Call) and isinstance(n.func, ast.Name) and n.func.id.startswith('_') and depth < 2:
+                # a private helper of the same module: its look-ups happen where it is called
+                g = program.find_func(f'{f.module.name}:{n.func.id}')
+                if g is not None and g.fq != f.fq:
+                    seq.append((n.lineno, n.col_offset, order_of(g.fq, names, depth + 1)[1]))
+        seq.sort(key=lambda t: (t[0], t[1]))
         out = []
-        for _, _, a in seq:
-            if a not in out:
-                out.append(a)
+        for _, _, attrs in seq:
+            for a in attrs:
+                if a not in out:
+                    out.append(a)
         return f, out
 
     for fq in (f'{MOD_DB}:_get_mass', f'{MOD_DB}:_get_comp'):
